@@ -139,7 +139,7 @@ def judge(chk, lib, pop, sigma, tagset):
 
 def main(chk):
     quick = chk.tier == 'quick'
-    n_schemas, n_pops, n_sig = (8, 3, 4) if quick else (60, 8, 8)
+    n_schemas, n_pops, n_sig = (10, 6, 6) if quick else (60, 10, 8)
     schemas = p21fam.std_corpus(chk.seed, n_schemas, AVOID_SCHEMA)
     libs = p21fam.report_build_failures(chk, p21fam.build_libs(schemas))
     cases = []
